@@ -88,6 +88,16 @@ def run(tier, rep):
                 items.append((t, ['\t'], False))
     for t in COMMENTED:
         items.append((t, P.INDENTS[:4], True))
+    # a comment of each kind in every gap of the one-constructor programs
+    ncomm = 0
+    for lex in G.programs(1) + (G.chain_programs(2, G.CORE_FORMS)
+                                if tier != 'quick' else []):
+        for i in range(len(lex) + 1):
+            for c in ('/*c*/', '//c\n'):
+                t = ' '.join(list(lex[:i]) + [c] + list(lex[i:]))
+                items.append((t, ['  ', ''] if tier == 'quick'
+                              else P.INDENTS[:4], True))
+                ncomm += 1
     total = P.run_cases(
         items, lambda acc, it: P.case_c20(acc, it[0], it[1], it[2]))
     # a printer object reused after an abandoned call
@@ -100,7 +110,7 @@ def run(tier, rep):
     total.merge(P.run_cases(
         reuse, lambda acc, it: P.case_c20_reuse(acc, *it)))
     rep.space('programs', count=len(items), container_chains_3=n3,
-              printer_reuse_cases=len(reuse))
+              printer_reuse_cases=len(reuse), commented_programs=ncomm)
     rep.cov['bounds'] = {'S2_k': 2, 'container_chain_depth':
                          3 if tier == 'quick' else 4,
                          'indents': P.INDENTS[:4]}
